@@ -15,6 +15,7 @@ explains every trace as a behaviour of ConnStream (silent kernel/goroutine steps
 trace it cannot explain is real-code behaviour the corrected design forbids.
 """
 import json
+import time
 import os
 import random
 import subprocess
@@ -499,6 +500,12 @@ def classify(ctx, binary, cases, traces, rejected, hw, deadline):
                            "reproduced_trace": t2.get(i), "reproduced_rejected_at": hw2.get(i),
                            "crash": crashes[0].stderr[-3000:] if crashes else None}, why)
         else:
+            try:        # keep the evidence: such a trace is rare and cannot be had again on demand
+                os.makedirs(os.path.join(vlib.VERIF, "replays"), exist_ok=True)
+                with open(os.path.join(vlib.VERIF, "replays", "C17-unreproduced-%d.json" % int(time.time())), "w") as f:
+                    json.dump({"why": why, "case": case, "trace": traces[k], "rejected_at": hw[k]}, f, indent=1)
+            except OSError:
+                pass
             raise vlib.InfraError("a recorded trace was rejected (%s) but %d re-executions of its case were all accepted; "
                                   "case=%s trace=%s" % (why, tries, json.dumps(case), json.dumps(traces[k])))
 
